@@ -1,6 +1,6 @@
 (* C42 — property theorems only.  Each is closed by `exact <lemma>` and followed by Print Assumptions. *)
 From Coq Require Import List NArith Bool Arith.
-From Verif.C42 Require Import Model Spec Proofs ProofsApply ProofsFinal ProofsIds ProofsSpec ProofsPin ProofsMaglev ProofsSched ProofsOracle ModelMg ProofsMg ProofsProj ProofsThree Witness.
+From Verif.C42 Require Import Model Spec Proofs ProofsApply ProofsFinal ProofsIds ProofsSpec ProofsPin ProofsMaglev ProofsSched ProofsOracle ModelMg ProofsMg ProofsProj ProofsThree ProofsSched3 Witness.
 Import ListNotations.
 Open Scope N_scope.
 
@@ -319,3 +319,11 @@ Theorem c42_final_exact_three_maps : forall cfg b lut lutf ops d0 states sy d st
         exists k fv, lookup fkey_eqb (fst (fst d')) k = Some fv /\ fv_id fv = id /\ i < fv_count fv).
 Proof. exact final_exact_three. Qed.
 Print Assumptions c42_final_exact_three_maps.
+
+(* and a valid schedule always exists in the three-map model as well (either phase order), so
+   c42_maglev_every_write_consistent / c42_final_exact_three_maps are not vacuous for any history of inputs *)
+Theorem c42_schedule_exists_three_maps : forall cfg b lut lutf ins sy d,
+  uk3 d -> Forall hin_ok ins ->
+  exists ops states sy' d', map erase3 ops = ins /\ run_history3 cfg b lut lutf sy d ops = Some (states, sy', d').
+Proof. exact schedule_exists3. Qed.
+Print Assumptions c42_schedule_exists_three_maps.
